@@ -153,3 +153,69 @@ Qed.
 (* down to the documented meaning of the source expression: whatever the folder does after ast_expand *)
 Theorem fold_anywhere_doc env e r' : fold_steps (expand e) r' -> eval_r env r' = eval_doc env e.
 Proof. intros H. rewrite (fold_steps_sound env _ _ H). apply expand_sound. Qed.
+
+(* ================= the Normalizer (sql/pq/preprocess.rs): null to the right of std.eq ================= *)
+Lemma is_null_normalize a : is_null (normalize a) = is_null a.
+Proof.
+  destruct a as [i|l|n args|cs]; try reflexivity.
+  cbn [normalize]. destruct (leqb n n_eq); [|reflexivity].
+  destruct (map normalize args) as [|[i|[| | | |]|m x|cs] [|b [|c t]]]; reflexivity.
+Qed.
+
+Lemma swap_null_eq env args :
+  eval_r env (match args with [RLit LNull; r] => ROp n_eq [r; RLit LNull] | _ => ROp n_eq args end) = eval_r env (ROp n_eq args).
+Proof.
+  destruct args as [|a [|b [|c t]]]; try reflexivity; destruct a as [i|[| | | |]|m x|cs]; try reflexivity.
+  change n_eq with (expand_binop B_Eq). rewrite !eval_r_std. cbn [rq_reversed is_eq_op is_null orb].
+  rewrite orb_true_r. destruct (is_null b) eqn:E; [|reflexivity].
+  apply is_null_inv in E. subst b. reflexivity.
+Qed.
+
+(* full strength, no side condition: the Normalizer never changes the documented value *)
+Theorem normalize_sound env r : eval_r env (normalize r) = eval_r env r.
+Proof.
+  induction r as [i|l|n args IH|cs IH] using rexpr_ind2; try reflexivity.
+  - cbn [normalize].
+    assert (CG : eval_r env (ROp n (map normalize args)) = eval_r env (ROp n args)).
+    { apply eval_r_cong. induction IH as [|a t Ha Ht IHt]; cbn [map]; constructor; [|exact IHt].
+      split; [exact Ha|]. intros _. apply is_null_normalize. }
+    destruct (leqb n n_eq) eqn:E; [|exact CG].
+    apply leqb_spec in E. subst n. rewrite swap_null_eq. exact CG.
+  - cbn [normalize]. induction IH as [|[c v] t [Hc Hv] Ht IHt]; [reflexivity|].
+    cbn [map fst snd] in *. rewrite !eval_r_case_cons, Hc, Hv, IHt. reflexivity.
+Qed.
+
+(* what gen_expr.rs relies on (process_null picks `b` when `a` is the literal null, else `a`): after the pass the
+   literal null is never the LEFT operand of std.eq unless both operands are the literal null *)
+Fixpoint null_on_the_right (r : rexpr) : bool :=
+  match r with
+  | ROp n args =>
+      forallb null_on_the_right args &&
+      (if leqb n n_eq then match args with [a; b] => negb (is_null a) || is_null b | _ => true end else true)
+  | RCase cs => forallb (fun cv => null_on_the_right (fst cv) && null_on_the_right (snd cv)) cs
+  | _ => true
+  end.
+
+Lemma null_on_the_right_swap args :
+  forallb null_on_the_right args = true ->
+  null_on_the_right (match args with [RLit LNull; r] => ROp n_eq [r; RLit LNull] | _ => ROp n_eq args end) = true.
+Proof.
+  intros H.
+  destruct args as [|a [|b [|c t]]]; try (destruct a as [i|[| | | |]|m x|cs]);
+    cbn [null_on_the_right is_null negb orb]; rewrite ?leqb_refl; try (rewrite H; reflexivity).
+  cbn [forallb null_on_the_right] in H |- *.
+  destruct (null_on_the_right b); destruct (is_null b); cbn in *; congruence.
+Qed.
+
+Theorem normalize_puts_null_right r : null_on_the_right (normalize r) = true.
+Proof.
+  induction r as [i|l|n args IH|cs IH] using rexpr_ind2; try reflexivity.
+  - cbn [normalize].
+    assert (A : forallb null_on_the_right (map normalize args) = true).
+    { induction IH as [|a t Ha Ht IHt]; [reflexivity|]. cbn [map forallb]. rewrite Ha, IHt. reflexivity. }
+    destruct (leqb n n_eq) eqn:E.
+    + apply leqb_spec in E. subst n. apply null_on_the_right_swap. exact A.
+    + cbn [null_on_the_right]. rewrite A, E. reflexivity.
+  - cbn [normalize null_on_the_right]. induction IH as [|[c v] t [Hc Hv] Ht IHt]; [reflexivity|].
+    cbn [map forallb fst snd] in *. rewrite Hc, Hv, IHt. reflexivity.
+Qed.
